@@ -1186,7 +1186,8 @@ def check_C19(ctx):
         enc = ATTACHED[tag]
         return '(v %d %s)' % (tag, 'none' if enc is None else hx(enc))
     for _ in range(ctx.n(1000, 30000)):
-        depth = ctx.rng.choice([1, 1, 2, 2, 3, 5, 10, 50] if not ctx.quick else [1, 1, 2, 2, 3, 5, 12])
+        # the text of a chain doubles per layer (every layer escapes the quotes and backslashes of the one below): depth stays <= 14
+        depth = ctx.rng.choice([1, 1, 1, 2, 2, 2, 3, 3, 4, 5, 6, 8, 10, 12, 14] if not ctx.quick else [1, 1, 2, 2, 3, 5, 12])
         cause = ctx.rng.choice(NERR_TEXTS)
         if cause == '' and ctx.rng.random() < 0.8:
             cause = 'e'
